@@ -21,6 +21,7 @@ FIRST = {
     "C06-C": "missed (same construct as the known finding)", "C06-D": "missed (same construct as the known finding)",
     "C08-C": "missed", "C08-D": "caught", "C15-C": "missed", "C15-D": "caught", "C17-C": "caught", "C17-D": "missed",
     "C20-C": "missed", "C20-D": "missed",
+    "C18-C": "caught", "C18-D": "caught",
 }
 
 
